@@ -48,45 +48,55 @@ func execConc(line string) string {
 		}
 	}
 	rest := r.ops[i:]
-	mp := r.e.pool
 	var wg sync.WaitGroup
 	for w := 0; w < 8; w++ {
 		wg.Add(1)
 		go func(w int) {
 			defer wg.Done()
 			for j := w; j < len(rest); j += 8 {
-				f := strings.Split(rest[j], ":")
-				if len(f) < 2 {
-					continue
-				}
-				d, ok := r.tx(f[1])
-				switch {
-				case f[0] == "P" && ok && len(f) == 7:
-					tag, _ := strconv.Atoi(f[4])
-					mp.ProcessTransaction(d.tx, b(f[2]), b(f[3]), mempool.Tag(tag))
-				case f[0] == "A" && ok:
-					mp.MaybeAcceptTransaction(d.tx, b(f[2]), b(f[3]))
-				case f[0] == "K" && ok:
-					mp.CheckMempoolAcceptance(d.tx)
-				case f[0] == "R" && ok:
-					mp.RemoveTransaction(d.tx, true)
-				case f[0] == "D" && ok:
-					mp.RemoveDoubleSpends(d.tx)
-				case f[0] == "O" && ok:
-					mp.ProcessOrphans(d.tx)
-				case f[0] == "X" && ok:
-					mp.RemoveOrphan(d.tx)
-				case f[0] == "G":
-					tag, _ := strconv.Atoi(f[1])
-					mp.RemoveOrphansByTag(mempool.Tag(tag))
-				}
-				mp.Count()
-				mp.MiningDescs()
+				r.issue(rest[j])
 			}
 		}(w)
 	}
 	wg.Wait()
+	return r.invariants()
+}
 
+// issue performs one pool operation of a line on the real pool, ignoring results.
+func (r *runner) issue(op string) {
+	mp := r.e.pool
+	f := strings.Split(op, ":")
+	if len(f) < 2 {
+		return
+	}
+	d, ok := r.tx(f[1])
+	switch {
+	case f[0] == "P" && ok && len(f) == 7:
+		tag, _ := strconv.Atoi(f[4])
+		mp.ProcessTransaction(d.tx, b(f[2]), b(f[3]), mempool.Tag(tag))
+	case f[0] == "A" && ok:
+		mp.MaybeAcceptTransaction(d.tx, b(f[2]), b(f[3]))
+	case f[0] == "K" && ok:
+		mp.CheckMempoolAcceptance(d.tx)
+	case f[0] == "R" && ok:
+		mp.RemoveTransaction(d.tx, true)
+	case f[0] == "D" && ok:
+		mp.RemoveDoubleSpends(d.tx)
+	case f[0] == "O" && ok:
+		mp.ProcessOrphans(d.tx)
+	case f[0] == "X" && ok:
+		mp.RemoveOrphan(d.tx)
+	case f[0] == "G":
+		tag, _ := strconv.Atoi(f[1])
+		mp.RemoveOrphansByTag(mempool.Tag(tag))
+	}
+	mp.Count()
+	mp.MiningDescs()
+}
+
+// invariants evaluates the property's invariants directly on the real state.
+func (r *runner) invariants() string {
+	mp := r.e.pool
 	// invariants at quiescence, on the real state
 	pool, outpoints, orphans, _ := mp.VerifPoolDump()
 	for _, desc := range mp.TxDescs() {
@@ -139,4 +149,106 @@ func execConc(line string) string {
 	}
 	var _ wire.OutPoint
 	return "ok"
+}
+
+// connectBase connects the leading C ops of a line sequentially; returns the index of the first other op.
+func (r *runner) connectBase(ops []string) (int, string) {
+	i := 0
+	for ; i < len(ops) && strings.HasPrefix(ops[i], "C:"); i++ {
+		bo, err := parseBlockOp(strings.Split(ops[i], ":"))
+		if err != nil {
+			return i, "bad-op"
+		}
+		best := r.e.chain.BestSnapshot()
+		blk, ok := r.buildBlock(best.Hash, best.Height+1, bo)
+		if !ok {
+			return i, "bad-op"
+		}
+		if _, _, err := r.e.chain.ProcessBlock(blk, blockchain.BFNone); err != nil {
+			return i, "bb"
+		}
+	}
+	return i, ""
+}
+
+// execPar: "C10 par …" — ops are `base/g0/g1/…`: the base chain is connected, then every group is issued by
+// its own goroutine, in order within the group.  The groups are independent by construction, so the
+// final state must be the one the model reaches sequentially; the answer is that final state (or an
+// invariant violation).  R with redeemers=false inside a group is issued as written.
+func execPar(line string) string {
+	tok := strings.Fields(line)
+	if len(tok) != 6 {
+		return "bad-op"
+	}
+	parts := strings.Split(tok[5], "/")
+	tok[1] = "run"
+	var all []string
+	for _, p := range parts {
+		if p != "" && p != "-" {
+			all = append(all, p)
+		}
+	}
+	tok[5] = strings.Join(all, ";")
+	r, err := parseLine(strings.Join(tok, " "))
+	if err != nil {
+		return "bad-op"
+	}
+	if !r.checkFacts() {
+		return "bad-facts"
+	}
+	r.collectOps()
+	r.e, err = newEnv(r.pol, r.maturity)
+	if err != nil {
+		return "env-error"
+	}
+	defer r.e.close()
+	r.e.onEvent = func(byte) {}
+	if _, bad := r.connectBase(splitList(parts[0], ";")); bad != "" {
+		return bad
+	}
+	var wg sync.WaitGroup
+	start := make(chan struct{})
+	for _, grp := range parts[1:] {
+		ops := splitList(grp, ";")
+		wg.Add(1)
+		go func() {
+			defer wg.Done()
+			<-start
+			for _, op := range ops {
+				f := strings.Split(op, ":")
+				if f[0] == "R" && len(f) == 3 && !b(f[2]) {
+					if d, ok := r.tx(f[1]); ok {
+						r.e.pool.RemoveTransaction(d.tx, false)
+					}
+					continue
+				}
+				r.issue(op)
+			}
+		}()
+	}
+	close(start)
+	wg.Wait()
+	sn := r.snap()
+	if strings.Contains(sn.text, ";api-") {
+		return sn.text
+	}
+	// a group may orphan its own redeemers with R:x:0 (allowed by the API); InputsAvailable is not claimed then
+	if !hasPlainRemove(all) {
+		if v := r.invariants(); v != "ok" {
+			return v
+		}
+	}
+	return sn.text
+}
+
+func hasPlainRemove(groups []string) bool {
+	for _, g := range groups {
+		for _, op := range strings.Split(g, ";") {
+			f := strings.Split(op, ":")
+			if f[0] == "R" && len(f) == 3 && f[2] == "0" {
+				return true
+			}
+		}
+	}
+	return false
 }
